@@ -21,14 +21,17 @@
 #include <cxxabi.h>
 #include <fcntl.h>
 #include <poll.h>
+#include <map>
 #include <typeinfo>
 #include <unordered_set>
 
 using namespace c19;
 namespace dns = iora::network::dns;
 
-extern "C" const char *__ubsan_default_options() { return "print_stacktrace=1"; }
-extern "C" const char *__asan_default_options() { return "detect_leaks=0:allocator_may_return_null=1"; }
+// Reports are printed unsymbolised (in-process symbolisation costs ~0.25 s per dying evaluator); the worker resolves
+// the few distinct frame addresses with addr2line and caches them.
+extern "C" const char *__ubsan_default_options() { return "print_stacktrace=1:symbolize=0"; }
+extern "C" const char *__asan_default_options() { return "detect_leaks=0:allocator_may_return_null=1:symbolize=0"; }
 
 // ------------------------------------------------------------------------------------------------------------
 // iora adapter
@@ -330,14 +333,23 @@ static bool sameSpec(const MsgSpec &a, const MsgSpec &b)
     const RecSpec &x = a.recs[i], &y = b.recs[i];
     if (x.section != y.section || x.owner != y.owner || x.type != y.type || x.cls != y.cls || x.ttl != y.ttl || x.rdataRaw != y.rdataRaw)
       return false;
-    if (x.addr != y.addr || x.strings != y.strings || x.n1 != y.n1 || x.n2 != y.n2)
+    uint16_t t = x.type;
+    if ((t == T_A || t == T_AAAA || t == T_UNK) && x.addr != y.addr)
       return false;
-    for (int k = 0; k < 3; ++k)
+    if ((t == T_TXT || t == T_NAPTR) && x.strings != y.strings)
+      return false;
+    if (typeHasName(t) && x.n1 != y.n1)
+      return false;
+    if (t == T_SOA && x.n2 != y.n2)
+      return false;
+    int nu = t == T_MX ? 1 : t == T_SRV ? 3 : t == T_NAPTR ? 2 : 0;
+    for (int k = 0; k < nu; ++k)
       if (x.u16[k] != y.u16[k])
         return false;
-    for (int k = 0; k < 5; ++k)
-      if (x.u32[k] != y.u32[k])
-        return false;
+    if (t == T_SOA)
+      for (int k = 0; k < 5; ++k)
+        if (x.u32[k] != y.u32[k])
+          return false;
   }
   return true;
 }
@@ -546,7 +558,7 @@ static void evalMutant(const Bytes &m, const Bytes &kase, const char *desc)
 {
   CTR(C_EVAL)++;
   CTR(C_MUT)++;
-  RefDecoded ref = refDecode(m);
+  RefDecoded ref = refDecode(m, false);
   if (ref.ok && ref.strict)
     CTR(C_MUT_STRICT)++;
   if (ref.badPointer)
@@ -752,12 +764,45 @@ static std::string crashSig(const std::string &err, int status, bool hung, const
     kind = "signal-" + std::to_string(WTERMSIG(status));
   else
     kind = "exit-" + std::to_string(WEXITSTATUS(status));
-  // innermost iora frame
-  size_t f = err.find(" in iora::");
-  if (f != std::string::npos)
+  // innermost iora frame: resolve the (unsymbolised) frames of this executable with addr2line, cached per address
   {
-    size_t e = err.find_first_of("(\n", f + 4);
-    func = err.substr(f + 4, e == std::string::npos ? std::string::npos : e - f - 4);
+    static std::map<std::string, std::string> cache;
+    static std::string exe;
+    if (exe.empty())
+    {
+      char b[4096];
+      ssize_t n = readlink("/proc/self/exe", b, sizeof b - 1);
+      exe = n > 0 ? std::string(b, size_t(n)) : "?";
+    }
+    size_t q = 0;
+    int frames = 0;
+    while (func.empty() && frames < 8 && (q = err.find("(" + exe + "+0x", q)) != std::string::npos)
+    {
+      q += exe.size() + 2;
+      size_t e = err.find(')', q);
+      if (e == std::string::npos)
+        break;
+      std::string off = err.substr(q, e - q);
+      ++frames;
+      auto it = cache.find(off);
+      if (it == cache.end())
+      {
+        std::string res, cmd = "addr2line -f -i -C -e '" + exe + "' " + off + " 2>/dev/null";
+        if (FILE *f = popen(cmd.c_str(), "r"))
+        {
+          char line[2048];
+          while (fgets(line, sizeof line, f))
+            if (res.empty() && strncmp(line, "iora::", 6) == 0)
+              res = line;
+          pclose(f);
+        }
+        it = cache.emplace(off, res).first;
+      }
+      func = it->second;
+    }
+    size_t e = func.find_first_of("(\n");
+    if (e != std::string::npos)
+      func = func.substr(0, e);
     const std::string ns = "iora::network::dns::";
     if (func.rfind(ns, 0) == 0)
       func = func.substr(ns.size());
@@ -1063,7 +1108,7 @@ struct Gen
   size_t batchBytes = 0;
   uint64_t idx = 0;
   std::unordered_set<uint64_t> seen;
-  bool stop = false;
+  bool stop = false, dry = false;
   uint64_t lastIdxBegun = 0;
 
   bool timeUp()
@@ -1104,6 +1149,19 @@ struct Gen
   }
   void push(Job &&j, size_t weight)
   {
+    if (dry)
+    {
+      rep->counters["dry_messages"]++;
+      if (j.mutate)
+      {
+        uint64_t n = 0;
+        forEachMutant(j.built, [&](const char *, const Bytes &) { ++n; });
+        rep->counters["dry_mutants"] += n;
+        rep->counters[std::string("dry_mutants_") + j.label.substr(0, j.label.find(' '))] += n;
+      }
+      rep->counters[std::string("dry_messages_") + (j.kind ? "Q" : j.label.substr(0, j.label.find(' ')))]++;
+      return;
+    }
     lastIdxBegun = idx;
     batch.push_back(std::move(j));
     batchBytes += weight;
@@ -1137,7 +1195,7 @@ struct Gen
       rep->distinct_nontrivial += spec.recs.empty() ? 0 : 1;
       if (bl.b.pointers)
         rep->counters["distinct_messages_with_pointers"]++;
-      if (bl.b.pointers > int(rep->counters["max_pointers_in_one_message"]))
+      if (uint64_t(bl.b.pointers) > rep->counters["max_pointers_in_one_message"])
         rep->counters["max_pointers_in_one_message"] = uint64_t(bl.b.pointers);
       if (bl.b.wire.size() > rep->counters["max_message_bytes"])
         rep->counters["max_message_bytes"] = bl.b.wire.size();
@@ -1154,8 +1212,7 @@ struct Gen
     if (timeUp())
       return;
     Builder bl;
-    Odo odo; // layout: first option everywhere (names in full) unless compress: then last option? keep simple: full
-    (void)compress;
+    (void)compress; // names other than the poisoned ones are written in full
     bl.poison = p;
     bl.build(spec);
     if (!route(bl.b.wire))
@@ -1541,6 +1598,7 @@ int main(int argc, char **argv)
                     g.sh = &sh;
                     g.rep = &r;
                     g.iso.rep = &r;
+                    g.dry = args.getInt("dry", 0) != 0;
                     if (sh.resumed)
                       r.notes.push_back("worker restarted by the supervisor (should not happen: evaluation is isolated in child processes)");
                     families(g, thorough);
